@@ -361,3 +361,33 @@ pub fn mutate(rng: &mut R, b: &[u8]) -> Vec<u8> {
     }
     v
 }
+
+
+// ------------------------------------------------------------------------------------------ in-memory transport
+
+/// Field-wise transport of an in-memory transaction for the line protocol (`m:<hex>`, read by `EV.Driver.MemTx`): the
+/// consensus encoding cannot carry an input whose all-ones index coexists with a pegin flag or an issuance.
+///   version(4 LE) lock_time(4 LE) varint #in {outpoint(36) is_pegin(1) script_sig(var) sequence(4 LE) issuance witness}
+///   varint #out {txout (without witness) txout-witness}
+pub fn memtx_hex(t: &Transaction) -> String {
+    use elements::encode::{serialize, VarInt};
+    let mut b: Vec<u8> = vec![];
+    b.extend_from_slice(&t.version.to_le_bytes());
+    b.extend_from_slice(&t.lock_time.to_consensus_u32().to_le_bytes());
+    b.extend(serialize(&VarInt(t.input.len() as u64)));
+    for i in &t.input {
+        b.extend_from_slice(&i.previous_output.txid.to_byte_array());
+        b.extend_from_slice(&i.previous_output.vout.to_le_bytes());
+        b.push(i.is_pegin as u8);
+        b.extend(serialize(&i.script_sig));
+        b.extend_from_slice(&i.sequence.to_consensus_u32().to_le_bytes());
+        b.extend(serialize(&i.asset_issuance));
+        b.extend(serialize(&i.witness));
+    }
+    b.extend(serialize(&VarInt(t.output.len() as u64)));
+    for o in &t.output {
+        b.extend(serialize(o));
+        b.extend(serialize(&o.witness));
+    }
+    format!("m:{}", crate::hex(&b))
+}
